@@ -156,7 +156,25 @@ def check_spec(sfs, instrs, timeout_ms=10000, max_relevant=MAX_RELEVANT, kind="c
                                   time.time() - t0, nrel)
         base = ctx.assumptions + ctx.side + sem.defs + sem.admissible()
         goal = base + [z3.Or(*[f for _, f in dis])]
-        verdict, model = solve(goal, timeout_ms, STATS, kind + ":" + stage, portfolio=not abstract)
+        verdict, model = solve(goal, min(timeout_ms, 3000), STATS, kind + ":" + stage, portfolio=False)
+        if verdict == "unknown" and not abstract and ctx.shift_amounts:
+            # 257-way case split on a symbolic shift amount (see vlib.equiv._case_split)
+            t = ctx.shift_amounts[0]
+            cases = [t == E.BV(k) for k in range(256)] + [z3.UGE(t, E.BV(256))]
+            allunsat = True
+            for c in cases:
+                v2, m2 = solve(goal + [c], 2000, STATS, kind + ":shift-case", portfolio=False)
+                if v2 == "sat":
+                    verdict, model = "sat", m2
+                    allunsat = False
+                    break
+                if v2 != "unsat":
+                    allunsat = False
+                    break
+            if allunsat:
+                return SpecResult("equal", "unsat in all 257 shift-amount cases", seconds=time.time() - t0, n_rel=nrel)
+        if verdict == "unknown" and not abstract and timeout_ms > 3000:
+            verdict, model = solve(goal, timeout_ms, STATS, kind + ":" + stage + ":long")
         if verdict == "unsat":
             return SpecResult("equal", "unsat (%s)" % stage, seconds=time.time() - t0, n_rel=nrel)
         if verdict == "sat":
